@@ -33,6 +33,7 @@
 #include "safe_str_lib.h"
 #else
 #include "safeclib_private.h"
+#include "mem/mem_primitives_lib.h"
 #endif
 
 /**
@@ -80,16 +81,22 @@ EXPORT errno_t _strzero_s_chk(char *dest, rsize_t dmax,
         CHK_DEST_OVR("strzero_s", destbos)
     }
 
-    /* null string to eliminate data */
-    while (dmax && *dest) {
-        *dest = '\0';
-        dmax--;
-        dest++;
-    }
+    /* null string to eliminate data. the string is usually dead afterwards:
+       write through a volatile pointer and add the barrier, as memset_s
+       does, so that the stores survive inlining and link-time optimization */
+    {
+        volatile char *vp = dest;
+        while (dmax && *vp) {
+            *vp = '\0';
+            dmax--;
+            vp++;
+        }
 #ifdef SAFECLIB_STR_NULL_SLACK
-    if (!*dest)
-        memset(dest, 0, dmax);
+        if (dmax && !*vp)
+            mem_prim_set((void *)vp, (uint32_t)dmax, 0);
 #endif
+    }
+    MEMORY_BARRIER;
 
     return (EOK);
 }
